@@ -71,14 +71,31 @@ def cmp_die(die, e, where):
     return None
 
 
-def check_sequential(dw, exps):
+def _units(dw, exps):
+    """(real unit objects, expectations) of .debug_info followed by those of .debug_types (version 4 type units)"""
+    xi = [x for x in exps if x.get('section') != 'debug_types']
+    xt = [x for x in exps if x.get('section') == 'debug_types']
     cus = list(dw.iter_CUs())
-    if len(cus) != len(exps):
-        return 'iter_CUs yields %d units, the section holds %d' % (len(cus), len(exps))
-    for cu, x in zip(cus, exps):
-        for k, g in (('cu_offset', cu.cu_offset), ('cu_die_offset', cu.cu_die_offset), ('size', cu.size),
-                     ('unit_length', cu['unit_length']), ('version', cu['version']), ('address_size', cu['address_size']),
-                     ('debug_abbrev_offset', cu['debug_abbrev_offset'])):
+    tus = list(dw.iter_TUs()) if xt else []
+    return cus, xi, tus, xt
+
+
+def check_sequential(dw, exps):
+    cus, xi, tus, xt = _units(dw, exps)
+    if len(cus) != len(xi):
+        return 'iter_CUs yields %d units, the section holds %d' % (len(cus), len(xi))
+    if len(tus) != len(xt):
+        return 'iter_TUs yields %d units, .debug_types holds %d' % (len(tus), len(xt))
+    for cu, x in list(zip(cus, xi)) + list(zip(tus, xt)):
+        fields = [('cu_offset', cu.cu_offset), ('cu_die_offset', cu.cu_die_offset), ('size', cu.size),
+                  ('unit_length', cu['unit_length']), ('version', cu['version']), ('address_size', cu['address_size']),
+                  ('debug_abbrev_offset', cu['debug_abbrev_offset'])]
+        if x.get('section') == 'debug_types':
+            fields += [('cu_offset', cu.tu_offset), ('cu_die_offset', cu.tu_die_offset), ('signature', cu['signature']),
+                       ('type_offset', cu['type_offset'])]
+        elif x['signature'] is not None:
+            fields += [('signature', cu['type_signature']), ('type_offset', cu['type_offset'])]
+        for k, g in fields:
             if g != x[k]:
                 return 'unit at %d: %s is %r, encoded %r' % (x['cu_offset'], k, g, x[k])
         if x['unit_type'] is not None and cu['unit_type'] != x['unit_type']:
@@ -102,7 +119,9 @@ def check_sequential(dw, exps):
 
 
 def check_structure(dw, exps, rng):
-    for cu, x in zip(dw.iter_CUs(), exps):
+    cus, xi, tus, xt = _units(dw, exps)
+    for cu, x in list(zip(cus, xi)) + list(zip(tus, xt)):
+        in_types = x.get('section') == 'debug_types'
         ents = x['entries']
         order = list(range(len(ents)))
         rng.shuffle(order)
@@ -112,9 +131,10 @@ def check_structure(dw, exps, rng):
             r = cmp_die(d, e, 'CompileUnit.get_DIE_from_refaddr')
             if r:
                 return r
-            d2 = dw.get_DIE_from_refaddr(e['offset'])
-            if d2.offset != e['offset'] or d2.cu.cu_offset != x['cu_offset']:
-                return 'DWARFInfo.get_DIE_from_refaddr(%d) gives the entry at %d of unit %d' % (e['offset'], d2.offset, d2.cu.cu_offset)
+            if not in_types:
+                d2 = dw.get_DIE_from_refaddr(e['offset'])
+                if d2.offset != e['offset'] or d2.cu.cu_offset != x['cu_offset']:
+                    return 'DWARFInfo.get_DIE_from_refaddr(%d) gives the entry at %d of unit %d' % (e['offset'], d2.offset, d2.cu.cu_offset)
             if e['has_children']:
                 kids = [c.offset for c in d.iter_children()]
                 if kids != [ents[k]['offset'] for k in e['children']]:
@@ -137,6 +157,9 @@ def snapshot(dw):
     out = []
     for cu in dw.iter_CUs():
         out.append((cu.cu_offset, cu.cu_die_offset, cu.size, [die_view(d) for d in cu.iter_DIEs()]))
+    if dw.debug_types_sec is not None:
+        for tu in dw.iter_TUs():
+            out.append((tu.tu_offset, tu.tu_die_offset, tu.size, [die_view(d) for d in tu.iter_DIEs()]))
     return out
 
 
@@ -150,9 +173,23 @@ def check_history(secs, exps, le, asz, rng):
         op = rng.choice(['refaddr', 'cu_at', 'partial_iter', 'children', 'seek', 'top', 'parent', 'containing'])
         x = rng.choice(exps)
         e = rng.choice(x['entries'])
+        if x.get('section') == 'debug_types':
+            op = 'tu-' + rng.choice(['sig', 'partial_iter', 'refaddr', 'seek'])
         log.append((op, e['offset']))
         try:
-            if op == 'refaddr':
+            if op == 'tu-sig':
+                dw.get_TU_by_sig8(x['signature'])
+            elif op == 'tu-partial_iter':
+                it = dw.get_TU_by_sig8(x['signature']).iter_DIEs()
+                for _k in range(rng.randrange(0, 4)):
+                    next(it, None)
+            elif op == 'tu-refaddr':
+                for _c in dw.get_TU_by_sig8(x['signature']).get_DIE_from_refaddr(e['offset']).iter_children():
+                    if rng.random() < 0.3:
+                        break
+            elif op == 'tu-seek':
+                dw.debug_types_sec.stream.seek(rng.randrange(0, 64))
+            elif op == 'refaddr':
                 dw.get_DIE_from_refaddr(e['offset'])
             elif op == 'cu_at':
                 dw.get_CU_at(x['cu_offset'])
@@ -196,10 +233,13 @@ def one_case(rng, version, fmt, tier):
         f = fmt if i == 0 else rng.choice([32, 64])
         ut = rng.choice(sorted(S.V5_UNIT_TYPES)) if v >= 5 else 'DW_UT_compile'
         cfgs.append(S.Cfg(le, f, rng.choice([4, 8]), v, ut))
-    secs, exps = S.gen_section(rng, cfgs, shared_abbrev=rng.random() < 0.4)
+    # version 4: type units in .debug_types alongside the .debug_info units
+    tcfgs = [S.Cfg(le, rng.choice([32, 64]), rng.choice([4, 8]), 4, 'TU4') for _ in range(rng.choice([0, 1, 2, 3]))] if version == 4 else []
+    secs, exps = S.gen_section(rng, cfgs, shared_abbrev=rng.random() < 0.4, type_cfgs=tcfgs)
     asz = cfgs[0].asz
-    inp = dict(configuration=repr([(c.le, c.fmt, c.asz, c.version, c.unit_type) for c in cfgs]),
-               input='debug_info=%s debug_abbrev=%s' % (secs['debug_info'].hex()[:1200], secs['debug_abbrev'].hex()[:600]))
+    inp = dict(configuration=repr([(c.le, c.fmt, c.asz, c.version, c.unit_type) for c in cfgs + tcfgs]),
+               input='debug_info=%s debug_abbrev=%s debug_types=%s' % (secs['debug_info'].hex()[:1200], secs['debug_abbrev'].hex()[:600],
+                                                                       secs['debug_types'].hex()[:600]))
     try:
         r = check_sequential(_dwarfinfo(secs, le, asz), exps)
         r = r or check_structure(_dwarfinfo(secs, le, asz), exps, rng)
